@@ -93,7 +93,20 @@ impl Write for Sink {
             if self.out.len() >= k && !(self.script.transient && self.failed_once) {
                 self.failed_once = true;
                 self.note(buf.len(), "hard error".into());
-                return Err(io::Error::new(io::ErrorKind::Other, "scripted failure"));
+                // the kind of the failure varies with the offset: no kind of error may be taken for success
+                const KINDS: [io::ErrorKind; 10] = [
+                    io::ErrorKind::Other,
+                    io::ErrorKind::BrokenPipe,
+                    io::ErrorKind::ConnectionReset,
+                    io::ErrorKind::WriteZero,
+                    io::ErrorKind::UnexpectedEof,
+                    io::ErrorKind::TimedOut,
+                    io::ErrorKind::PermissionDenied,
+                    io::ErrorKind::WouldBlock,
+                    io::ErrorKind::ConnectionAborted,
+                    io::ErrorKind::InvalidInput,
+                ];
+                return Err(io::Error::new(KINDS[k % KINDS.len()], "scripted failure"));
             }
         }
         if let Some(k) = self.script.zero_at {
@@ -299,6 +312,19 @@ fn run(ctx: &Ctx, rep: &Report) {
             }
         }
     }
+    // one package whose payload spans several 64 KiB blocks (uncompressed, incompressible content)
+    {
+        let mut r = Rng::for_case(ctx.seed, "C14-large", 0);
+        let mut cfg = gen_cfg(&mut r, &GenOpts { max_files: 0, ..Default::default() });
+        cfg.files.clear();
+        cfg.compression = Some(("none".into(), 0));
+        cfg.files.push(FileCfg { dest: "/opt/large/blob.bin".into(), content_kind: "noise".into(), size: 150_000 + r.usize(70_000), content_seed: r.next(), mode: Some(0o100644), source_perm: 0o644, user: None, group: None, flags: vec![], caps: None, symlink: None, mtime: 1_500_000_000, verify: None });
+        if let Ok(p) = build(&cfg, &dir) {
+            if let Ok(b) = pkg_bytes(&p) {
+                pkgs.push(("built-large-payload".into(), b));
+            }
+        }
+    }
     let _ = std::fs::remove_dir_all(&dir);
     if pkgs.len() < 3 {
         rep.inconclusive("could not prepare the packages");
@@ -319,7 +345,21 @@ fn run(ctx: &Ctx, rep: &Report) {
         let mut scripts: Vec<SinkScript> = Vec::new();
         let plain = SinkScript { accept: Accept::All, fail_at: None, transient: false, zero_at: None, interrupt_every: None, vectored: false };
         // (1) hard failure at every offset (with full and with 1..7-byte acceptance)
-        for k in 0..=canonical.len() {
+        // packages with a large payload are cut at sampled offsets (plus the offsets around 64 KiB multiples)
+        let large = canonical.len() > 50_000;
+        let mut cut_offsets: Vec<usize> = if large { (0..=canonical.len()).step_by(1009).collect() } else { (0..=canonical.len()).collect() };
+        if large {
+            for m in 1..=canonical.len() / 65536 {
+                for d in [-1i64, 0, 1] {
+                    cut_offsets.push((m as i64 * 65536 + d) as usize);
+                    cut_offsets.push(((payload_start + m * 65536) as i64 + d).min(canonical.len() as i64) as usize);
+                }
+            }
+            cut_offsets.push(canonical.len());
+            cut_offsets.sort();
+            cut_offsets.dedup();
+        }
+        for k in cut_offsets.iter().copied() {
             scripts.push(SinkScript { fail_at: Some(k), ..plain.clone() });
             // the same failure, but only once
             scripts.push(SinkScript { fail_at: Some(k), transient: true, ..plain.clone() });
@@ -331,7 +371,7 @@ fn run(ctx: &Ctx, rep: &Report) {
             }
         }
         // (2) chunk patterns
-        for k in [1usize, 2, 3, 7, 16, 4095] {
+        for k in [1usize, 2, 3, 7, 16, 4095, 65535, 65536, 65537] {
             scripts.push(SinkScript { accept: Accept::Max(k), ..plain.clone() });
             scripts.push(SinkScript { accept: Accept::Max(k), interrupt_every: Some(3), ..plain.clone() });
         }
@@ -391,7 +431,7 @@ fn run(ctx: &Ctx, rep: &Report) {
             }
         }
         // truncation at every offset, contiguous and chunked
-        for cut in 0..=bytes.len() {
+        for cut in (0..=bytes.len()).step_by(if large { 1009 } else { 1 }) {
             rep.eval(1);
             *local.entry("read.truncation-offsets".into()).or_insert(0) += 1;
             rep.nontrivial(pi << 40 | 1 << 38 | cut as u64);
